@@ -49,7 +49,8 @@ type concCase struct {
 	Cap     int  `json:"cap"`
 	Max     int  `json:"max"`
 	IdleAll bool `json:"idle_all"`
-	// clean:  no capacity reduction while clients run; Close after they have joined
+	// clean:  sweeps only while clients run; Close after they have joined
+	// grow:   as clean, plus SetCapacity(max) concurrent with the clients
 	// shrink: scale-in ticks and arbitrary SetCapacity run concurrently with the clients
 	// close:  as clean, but Close is called while clients are still running
 	Mode    string  `json:"mode"`
@@ -110,6 +111,7 @@ type concState struct {
 	kind    string
 	labels  map[string]bool
 	closing atomic.Bool
+	capOver atomic.Bool // Capacity() above the maximum capacity was observed
 }
 
 func (s *concState) fail(kind, f string, a ...interface{}) {
@@ -158,7 +160,20 @@ func joinOrTimeout(wg *sync.WaitGroup, d time.Duration) bool {
 
 // classify maps a failure of a workload to a known finding when the workload
 // contains that finding's trigger and the failure is one of its consequences.
-func classifyConc(mode, kind string) string {
+func classifyConc(c concCase, st *concState) string {
+	mode, kind := c.Mode, st.kind
+	// C24-F4: SetCapacity's compare-and-swap interleaves with the check-then-add of a scale-out;
+	// the signature is a capacity above the maximum
+	if st.capOver.Load() && (mode == "grow" || mode == "shrink") {
+		for _, op := range c.Ctl {
+			if op.Kind == "setcap" {
+				switch kind {
+				case "put_full", "over_max", "cap_over_max", "identity", "stuck":
+					return "C24-F4"
+				}
+			}
+		}
+	}
 	switch mode {
 	case "shrink":
 		// scale-out while a capacity reduction waits (C24-F2): more slots than max exist
@@ -167,11 +182,19 @@ func classifyConc(mode, kind string) string {
 		}
 	case "close":
 		// scale-out while Close waits (C24-F1)
-		if kind == "over_max" || kind == "put_closed" || kind == "revived" {
+		// (get_closed: the scaled-out Get failed in the factory and puts its slot into the closed channel)
+		if kind == "over_max" || kind == "put_closed" || kind == "get_closed" || kind == "revived" {
 			return "C24-F1"
 		}
 	}
 	return ""
+}
+
+func getKind(p string) string {
+	if strings.Contains(p, "send on closed channel") {
+		return "get_closed"
+	}
+	return "get_panic"
 }
 
 func putKind(p string) string {
@@ -217,7 +240,7 @@ func runPoolRound(c concCase, st *concState) {
 				var res util.Resource
 				var err error
 				if p := pbt.Catch(func() { res, err = rp.Get(ctx) }); p != "" {
-					st.fail("get_panic", "Get panicked: %s", p)
+					st.fail(getKind(p), "Get panicked: %s", p)
 				}
 				cancel()
 				if err != nil || res == nil {
@@ -227,6 +250,9 @@ func runPoolRound(c concCase, st *concState) {
 					continue
 				}
 				f := res.(*fakeRes)
+				if rp.Capacity() > int64(c.Max) {
+					st.capOver.Store(true)
+				}
 				if !f.holder.CompareAndSwap(0, int32(ci+1)) {
 					st.fail("double_issue", "client %d got resource r%d while client %d holds it", ci+1, f.id, f.holder.Load())
 				}
@@ -240,6 +266,9 @@ func runPoolRound(c concCase, st *concState) {
 					arg = nil
 				}
 				if p := pbt.Catch(func() { rp.Put(arg) }); p != "" {
+					if rp.Capacity() > int64(c.Max) {
+						st.capOver.Store(true)
+					}
 					st.fail(putKind(p), "returning resource r%d failed: Put panicked: %s", f.id, p)
 				}
 			}
@@ -252,13 +281,14 @@ func runPoolRound(c concCase, st *concState) {
 		<-start
 		for _, op := range c.Ctl {
 			kind := op.Kind
-			if c.Mode != "shrink" {
-				switch kind {
-				case "scalein":
-					kind = "yield"
-				case "setcap":
-					op.N = c.Max // never a reduction
-				}
+			switch {
+			case c.Mode == "shrink":
+			case kind == "scalein":
+				kind = "yield"
+			case kind == "setcap" && c.Mode == "grow":
+				op.N = c.Max // never a reduction
+			case kind == "setcap":
+				kind = "yield"
 			}
 			if p := pbt.Catch(func() {
 				switch kind {
@@ -282,6 +312,11 @@ func runPoolRound(c concCase, st *concState) {
 		}
 	}()
 	close(start)
+	defer func() {
+		if rp.Capacity() > int64(c.Max) {
+			st.capOver.Store(true)
+		}
+	}()
 	if !joinOrTimeout(&wg, 60*time.Second) {
 		st.fail("stuck", "clients did not finish within 60 s (every Get has a 2 s timeout)")
 		return
@@ -304,6 +339,7 @@ func runPoolRound(c concCase, st *concState) {
 		kind = "revived"
 	}
 	if capN > int64(c.Max) {
+		st.capOver.Store(true)
 		st.fail("cap_over_max", "capacity %d exceeds the maximum capacity %d", capN, c.Max)
 	}
 	if int64(chanLen) != capN || avail != int64(chanLen) || inUse != 0 {
@@ -346,7 +382,7 @@ func checkConc(round func(concCase, *concState)) func(c concCase) pbt.Outcome {
 		o.NonTrivial = int(st.maxHeld.Load()) >= 2 || (c.Max == 1 && len(c.Clients) >= 2)
 		if st.first != "" {
 			detail := fmt.Sprintf("[%s] %s (cap %d, max %d, %d clients, mode %s)", st.kind, st.first, c.Cap, c.Max, len(c.Clients), c.Mode)
-			if id := classifyConc(c.Mode, st.kind); id != "" {
+			if id := classifyConc(c, st); id != "" {
 				o.Known, o.KnownWhat = id, detail
 			} else {
 				o.Violation = detail
@@ -362,8 +398,8 @@ func TestC24ConcPool(t *testing.T) {
 		q, th = 150, 1500
 	}
 	pbt.Run(t, pbt.Spec{ID: "C24", Sub: "conc_pool", Quick: q, Thorough: th,
-		Rule:  "util.ResourcePool, capacity<=max<=4; 2-8 client goroutines with 1-12 operations each (get/hold/put, get/close/put nil, get with 200 us timeout, scripted factory failures) plus a controller goroutine (sweeps, SetCapacity, scale-in ticks; mode clean: no reductions and Close after the join; shrink: reductions concurrent with clients; close: Close concurrent with clients); 1-4 rounds per workload. non-trivial = at least two connections were held at the same time (or clients competed for a pool of one)",
-		Floor: 0.5}, genConc(8, 12, []string{"clean", "clean", "clean", "shrink", "close"}), checkConc(runPoolRound))
+		Rule:  "util.ResourcePool, capacity<=max<=4; 2-8 client goroutines with 1-12 operations each (get/hold/put, get/close/put nil, get with 200 us timeout, scripted factory failures) plus a controller goroutine (mode clean: idle sweeps only, Close after the join; grow: plus SetCapacity(max); shrink: plus scale-in ticks and any SetCapacity; close: Close concurrent with clients); 1-4 rounds per workload. non-trivial = at least two connections were held at the same time (or clients competed for a pool of one)",
+		Floor: 0.5}, genConc(8, 12, []string{"clean", "clean", "grow", "shrink", "close"}), checkConc(runPoolRound))
 }
 
 // ---- backend.ConnectionPool over fakemysql ----
@@ -406,7 +442,7 @@ func runBackendRound(c concCase, st *concState) {
 				var pc backend.PooledConnect
 				var err error
 				if p := pbt.Catch(func() { pc, err = cp.Get(ctx) }); p != "" {
-					st.fail("get_panic", "Get panicked: %s", p)
+					st.fail(getKind(p), "Get panicked: %s", p)
 				}
 				cancel()
 				if err != nil || pc == nil {
@@ -414,6 +450,9 @@ func runBackendRound(c concCase, st *concState) {
 						st.label("get_failed")
 					}
 					continue
+				}
+				if cp.Capacity() > int64(c.Max) {
+					st.capOver.Store(true)
 				}
 				if prev, loaded := holders.LoadOrStore(pc, ci+1); loaded {
 					st.fail("double_issue", "client %d got a connection that client %v holds", ci+1, prev)
@@ -431,6 +470,9 @@ func runBackendRound(c concCase, st *concState) {
 					pc.Close()
 				}
 				if p := pbt.Catch(pc.Recycle); p != "" {
+					if cp.Capacity() > int64(c.Max) {
+						st.capOver.Store(true)
+					}
 					st.fail(putKind(p), "returning a connection failed: Recycle panicked: %s", p)
 				}
 			}
@@ -442,7 +484,7 @@ func runBackendRound(c concCase, st *concState) {
 		defer cwg.Done()
 		<-start
 		for _, op := range c.Ctl {
-			if op.Kind == "setcap" {
+			if op.Kind == "setcap" && c.Mode == "grow" {
 				if p := pbt.Catch(func() { cp.SetCapacity(c.Max) }); p != "" {
 					st.fail("setcap_panic", "SetCapacity panicked: %s", p)
 				}
@@ -468,6 +510,7 @@ func runBackendRound(c concCase, st *concState) {
 	if c.Mode != "close" {
 		capN, avail, inUse := cp.Capacity(), cp.Available(), cp.InUse()
 		if capN > int64(c.Max) {
+			st.capOver.Store(true)
 			st.fail("cap_over_max", "capacity %d exceeds the maximum capacity %d", capN, c.Max)
 		}
 		if avail+inUse != capN || inUse != 0 {
@@ -485,11 +528,116 @@ func runBackendRound(c concCase, st *concState) {
 func TestC24ConcBackend(t *testing.T) {
 	q, th := 120, 1500
 	if os.Getenv("VERIF_RACE") != "" {
-		q, th = 60, 500
+		q, th = 60, 300
 	}
 	pbt.Run(t, pbt.Spec{ID: "C24", Sub: "conc_backend", Quick: q, Thorough: th,
-		Rule:  "backend.ConnectionPool (connectionPoolImpl, pooledConnectImpl.Recycle) over a loopback MySQL simulator, capacity<=max<=4, idle timeout 1 h or 2 ms (real sweep timer); 2-6 client goroutines with 1-8 operations each (Get with timeout, optional query, Recycle; Close+Recycle of a bad connection), controller goroutine raising the capacity and, in mode close, closing the pool while clients run. non-trivial as in conc_pool",
-		Floor: 0.5}, genConc(6, 8, []string{"clean", "clean", "clean", "close"}), checkConc(runBackendRound))
+		Rule:  "backend.ConnectionPool (connectionPoolImpl, pooledConnectImpl.Recycle) over a loopback MySQL simulator, capacity<=max<=4, idle timeout 1 h or 2 ms (real sweep timer); 2-6 client goroutines with 1-8 operations each (Get with timeout, optional query, Recycle; Close+Recycle of a bad connection), controller goroutine that in mode grow raises the capacity and in mode close closes the pool while clients run. non-trivial as in conc_pool",
+		Floor: 0.5}, genConc(6, 8, []string{"clean", "clean", "grow", "close"}), checkConc(runBackendRound))
+}
+
+// ---- SetCapacity increase against scale-out (stress for the window between two atomic steps) ----
+
+type growCase struct {
+	Cap     int `json:"cap"`
+	Max     int `json:"max"`
+	Getters int `json:"getters"`
+	Iters   int `json:"iters"`
+}
+
+func genGrow(t *rapid.T) growCase {
+	c := growCase{Max: rapid.IntRange(2, 4).Draw(t, "max"), Iters: rapid.IntRange(200, 2000).Draw(t, "iters")}
+	c.Cap = rapid.IntRange(1, c.Max-1).Draw(t, "cap")
+	c.Getters = rapid.IntRange(1, c.Max-c.Cap).Draw(t, "getters") // every one can be served: no waiting
+	return c
+}
+
+// checkGrow holds every initial slot, then lets Getters clients Get (each must scale out or
+// wait) while SetCapacity(max) runs; afterwards capacity <= max, at most max connections are
+// out and every return succeeds.
+func checkGrow(c growCase) (o pbt.Outcome) {
+	if c.Max < 2 || c.Cap < 1 || c.Cap >= c.Max || c.Getters < 1 || c.Getters > c.Max-c.Cap {
+		o.Skip = "malformed case"
+		return
+	}
+	o.NonTrivial = true
+	for i := 0; i < c.Iters && o.Violation == "" && o.Known == ""; i++ {
+		r := &runner{}
+		rp, err := util.NewResourcePool(r.factory, c.Cap, c.Max, time.Hour)
+		if err != nil {
+			o.Violation = err.Error()
+			return
+		}
+		rp.VerifStopTimers()
+		var held []util.Resource
+		var mu sync.Mutex
+		for j := 0; j < c.Cap; j++ {
+			x, err := rp.Get(context.Background())
+			if err != nil {
+				o.Violation = "Get on a fresh pool failed: " + err.Error()
+				return
+			}
+			held = append(held, x)
+		}
+		var wg sync.WaitGroup
+		var timedOut atomic.Bool
+		start := make(chan struct{})
+		for g := 0; g < c.Getters; g++ {
+			wg.Add(1)
+			go func() {
+				defer wg.Done()
+				<-start
+				ctx, cancel := context.WithTimeout(context.Background(), 500*time.Millisecond)
+				defer cancel()
+				if x, err := rp.Get(ctx); err == nil {
+					mu.Lock()
+					held = append(held, x)
+					mu.Unlock()
+				} else {
+					timedOut.Store(true)
+				}
+			}()
+		}
+		wg.Add(1)
+		go func() { defer wg.Done(); <-start; rp.SetCapacity(c.Max) }()
+		close(start)
+		wg.Wait()
+		capN := rp.Capacity()
+		fail := ""
+		if len(held) > c.Max {
+			fail = fmt.Sprintf("%d connections are handed out, maximum capacity is %d (capacity %d)", len(held), c.Max, capN)
+		}
+		for _, x := range held {
+			x := x
+			if p := pbt.Catch(func() { rp.Put(x) }); p != "" && fail == "" {
+				fail = fmt.Sprintf("returning a held resource failed: Put panicked: %s (capacity %d, maximum %d)", p, capN, c.Max)
+			}
+		}
+		if fail == "" && capN > int64(c.Max) {
+			fail = fmt.Sprintf("capacity %d exceeds the maximum capacity %d", capN, c.Max)
+		}
+		if fail != "" {
+			fail = fmt.Sprintf("iteration %d: %s", i, fail)
+			if capN > int64(c.Max) {
+				o.Known, o.KnownWhat = "C24-F4", fail
+			} else {
+				o.Violation = fail
+			}
+		}
+		go pbt.Catch(rp.Close)
+		if timedOut.Load() {
+			// not a statement of the property (liveness); do not spend the budget waiting
+			o.Labels = append(o.Labels, "get_timed_out")
+			break
+		}
+	}
+	return
+}
+
+func TestC24ConcGrowRace(t *testing.T) {
+	q, th := 40, 400
+	pbt.Run(t, pbt.Spec{ID: "C24", Sub: "grow_race", Quick: q, Thorough: th,
+		Rule:  "stress of one window: all initial slots are held, 1..max-cap clients call Get (scale-out path) while SetCapacity(max) runs, 200-2000 fresh pools per case; every case is non-trivial",
+		Floor: 0.9}, genGrow, checkGrow)
 }
 
 // ---- race detector reports (thorough tier, -race build) ----
@@ -528,7 +676,7 @@ func classifyRaceLogs() int {
 		}
 	}
 	rc := 0
-	knownPrinted := false
+	knownPrinted, f1Printed := false, false
 	other := map[string]bool{}
 	for _, block := range strings.Split(string(b), "WARNING: DATA RACE")[1:] {
 		if i := strings.Index(block, "=================="); i >= 0 {
@@ -561,6 +709,19 @@ func classifyRaceLogs() int {
 				if !knownPrinted {
 					fmt.Printf("KNOWN-FINDING: property=C24 C24-F3: %s\n", what)
 					knownPrinted = true
+				}
+				continue
+			}
+		}
+		// a slot sent into the channel that Close is closing: consequence of C24-F1 (a connection
+		// or slot handed out by a scale-out while Close was collecting the slots)
+		isSend := func(s string) bool { return strings.HasPrefix(s, "runtime.chansend") }
+		isClose := func(s string) bool { return strings.HasPrefix(s, "runtime.closechan") }
+		if ((isSend(a) && isClose(c)) || (isSend(c) && isClose(a))) && strings.Contains(block, "(*ResourcePool).ScaleCapacity") {
+			if what, ok := open["C24-F1"]; ok {
+				if !f1Printed {
+					fmt.Printf("KNOWN-FINDING: property=C24 C24-F1: %s\n", what)
+					f1Printed = true
 				}
 				continue
 			}
